@@ -52,14 +52,14 @@ Definition wb_append (b : wbuf) (bs : list N) : wbuf :=
 
 Definition wb_append_byte (b : wbuf) (x : Z) : wbuf := wb_append b [Z.to_N (Z.land x 255)].
 
-(* ares_buf_append_be16 / be32: byte by byte *)
+(* ares_buf_append_be16 / be32: the octets are assembled in a local array and appended with ONE
+   ares_buf_append() call *)
 Definition wb_append_be16 (b : wbuf) (v : Z) : wbuf :=
-  wb_append_byte (wb_append_byte b (Z.land (Z.shiftr v 8) 255)) (Z.land v 255).
+  wb_append b [Z.to_N (Z.land (Z.land (Z.shiftr v 8) 255) 255); Z.to_N (Z.land (Z.land v 255) 255)].
 
 Definition wb_append_be32 (b : wbuf) (v : Z) : wbuf :=
-  wb_append_byte (wb_append_byte (wb_append_byte (wb_append_byte b (Z.land (Z.shiftr v 24) 255))
-                                                 (Z.land (Z.shiftr v 16) 255))
-                                 (Z.land (Z.shiftr v 8) 255)) (Z.land v 255).
+  wb_append b [Z.to_N (Z.land (Z.land (Z.shiftr v 24) 255) 255); Z.to_N (Z.land (Z.land (Z.shiftr v 16) 255) 255);
+               Z.to_N (Z.land (Z.land (Z.shiftr v 8) 255) 255); Z.to_N (Z.land (Z.land v 255) 255)].
 
 (* ares_buf_set_length(buf, len): (status, buffer) *)
 Definition wb_set_length (b : wbuf) (len : Z) : outcome (Z * wbuf) :=
